@@ -34,6 +34,19 @@ func GenRandom(r *hx.Rand, maxLen int) Input {
 		in.Bundle = 10000
 	}
 	in.TdShort = r.Chance(1, 5)
+	// what the store says about the pipeline, and how a restart is attempted
+	switch x := r.Intn(10); {
+	case x < 6:
+		in.PlStatus = 0 // running
+	default:
+		in.PlStatus = x - 5 // user-stopped, degraded, system-stopped, recovering
+	}
+	if r.Bool() {
+		in.Engine = "v2"
+	} else {
+		in.Engine = "v1"
+	}
+	in.Full = r.Chance(1, 8)
 	malcase := r.Chance(3, 20)
 	faulty := r.Chance(7, 10) // some runs are entirely failure-free (healthy teardowns)
 	n := r.Range(4, maxLen)
@@ -352,6 +365,7 @@ func inputFromJSON(m map[string]any) (Input, bool) {
 type Observed struct {
 	Log      []Event `json:"log"`
 	Restarts []Robs  `json:"restarts,omitempty"`
+	Full     []FullObs `json:"full,omitempty"` // restarts through the real services
 	Fixed    bool    `json:"fixed"` // does flushNow hand a failed Set's error to the callback
 	Hang     bool    `json:"hang,omitempty"`
 }
@@ -395,6 +409,24 @@ func RunCase(in Input, fixed bool, restarts int, r *hx.Rand) (Observed, error) {
 				continue
 			}
 			obs.Restarts = append(obs.Restarts, ro...)
+		}
+		// the same through pipeline / connector / processor / lifecycle services: for the cases
+		// marked Full (a fixed share of the quick tier) the last and one more commit point, in
+		// the thorough tier every commit point of every case
+		if in.Full || restarts == 2 {
+			fpick := map[int]bool{len(snaps) - 1: true}
+			if restarts == 2 {
+				for i := range snaps {
+					fpick[i] = true
+				}
+			} else if r != nil && len(snaps) > 1 {
+				fpick[r.Intn(len(snaps))] = true
+			}
+			for i, sn := range snaps {
+				if fpick[i] {
+					obs.Full = append(obs.Full, RestartFull(in, sn, in.Engine))
+				}
+			}
 		}
 	}
 	return obs, nil
@@ -442,7 +474,7 @@ func Main(prop string) {
 			fmt.Fprintln(os.Stderr, "setup failed:", err)
 			os.Exit(2)
 		}
-		w.Add(map[string]any{"input": in, "observed": obs}, CoqCase(in, fixed, obs.Log, obs.Restarts))
+		w.Add(map[string]any{"input": in, "observed": obs}, CoqCase(in, fixed, obs.Log, obs.Restarts, obs.Full))
 	}
 	switch {
 	case o.Replay != "":
@@ -494,6 +526,11 @@ func Main(prop string) {
 			each := func(k int, in Input) {
 				if k%parts != o.Shard {
 					return
+				}
+				// spread the stored pipeline status and the engine of the restart over the space
+				in.Engine = []string{"v1", "v2"}[(k/parts)%2]
+				if (k/parts)%5 == 4 {
+					in.PlStatus = 1 + (k/parts/5)%4
 				}
 				emit(in, root.Fork(uint64(k)))
 			}
